@@ -61,7 +61,7 @@ def gen_cases(tier, seed):
     for k in range(n):
         g = ExprGen(r, CAT, general=0.0, exponents=0.05, hyper=0.0, symbols=0.05,
                     max_pool=5)
-        first = g.term(nobj=r.randint(1, 3))
+        first = g.term(nobj=r.choice([1, 2, 2, 3, 3, 4]))
         if first is None:
             continue
         tg = ir.term_targets(first)
@@ -110,6 +110,32 @@ def gen_cases(tier, seed):
                       'symbolic': any(o['t'] == 'br' for t in terms
                                       for o in t['objs']),
                       'mseed': r.randrange(1 << 30), 'cost': len(allspins)})
+    # chains of 3-4 objects in which the search for a consistent spin assignment
+    # has to give up a first choice (all spin strings)
+    def anti(name, up, lo):
+        return {'t': 'anti', 'name': name, 'up': list(up), 'lo': list(lo),
+                'bk': 0}
+    fixed = [
+        ([{'t': 'amp', 'name': 't1', 'up': ['a', 'b'], 'lo': ['j', 'l']},
+          anti('V', 'jd', 'ef'), anti('f', 'a', 'd'), anti('f', 'k', 'b')],
+         ['e', 'f', 'k', 'l']),
+        ([anti('V', 'ij', 'ac'), anti('V', 'ik', 'jl'), anti('V', 'kl', 'mn')],
+         ['a', 'c', 'm', 'n']),
+        ([{'t': 'amp', 'name': 't2', 'up': ['d'], 'lo': ['i']},
+          anti('V', 'bd', 'ef'), anti('V', 'ik', 'jb'), anti('f', 'l', 'k')],
+         ['e', 'f', 'j', 'l']),
+        ([anti('V', 'ab', 'ij'), anti('V', 'jk', 'bc'), anti('f', 'c', 'd'),
+          {'t': 'amp', 'name': 't2', 'up': ['d'], 'lo': ['k']}],
+         ['a', 'i']),
+    ]
+    for q, (objs, order) in enumerate(fixed):
+        order = [s_ for s_ in order]
+        cases.append({'id': f'C15-{tier[0]}{seed}-chain-{q}', 'kind': 'gen',
+                      'terms': [{'pref': '1', 'objs': objs}], 'order': order,
+                      'spins': [''.join(p_) for p_ in
+                                itertools.product('ab', repeat=len(order))],
+                      'symbolic': False, 'mseed': r.randrange(1 << 30),
+                      'cost': 20})
     for name in ['t2_1', 't1_2', 't2_2', 'p0_2_oo', 'p0_2_vv', 't2eri_3',
                  'energy_2', 'mp2_density']:
         cases.append({'id': f'C15-{tier[0]}{seed}-itmd-{name}', 'kind': 'itmd',
